@@ -305,12 +305,31 @@ def correspond(ctx):
                     ff = fforms[-1] if M != 1 else fforms[0]
                     q = '%d %s and %d %s' % (N, mf, M, ff)
                     cjobs.append(('CurrencyModel', 'en-us', 'compound', main, fname, 'c', '%d/%d/%d' % (N, M, ratio), q))
-    chunks = [cjobs[i::64] for i in range(64)]
+    # History matters (a parser-level cache would be keyed too coarsely): every legitimate pair is asked AFTER a query
+    # that pairs the same fractional unit with a main currency the tables do NOT associate it with, in the same process.
+    by_frac = {}
+    for j in cjobs:
+        by_frac.setdefault(j[4], []).append(j)
+    chunks = []
+    for fname, js in sorted(by_frac.items()):
+        code = frac_code[fname]
+        wrong_main = next((mn for mn, iso in name_iso.items()
+                           if code not in (BaseCurrency.CurrencyFractionMapping.get(iso) or '').split('|')
+                           and any(f.isascii() and f.replace(' ', '').isalpha() for f in suffix.get(mn, '').split('|') if f)), None)
+        pre = []
+        if wrong_main:
+            wf = [f for f in suffix.get(wrong_main, '').split('|') if f and f.isascii() and f.replace(' ', '').isalpha()][-1]
+            ff = js[0][-1].split(' and ')[1].split(' ', 1)[1]
+            pre = [('CurrencyModel', 'en-us', 'compound', '__mismatch__', fname, 'c', '0/0/1', '3 %s and 50 %s' % (wf, ff))]
+        chunks.append(pre + js)
     with mp.Pool(min(16, os.cpu_count() or 4)) as pool_:
         results = pool_.map(_pipeline_chunk, chunks)
     for ch, res in zip(chunks, results):
         for j, got in zip(ch, res):
             (mt, cul, _k, main, fname, _c, nmr, q) = j
+            if main == '__mismatch__':
+                ctx.count('compound currency (mismatched pair asked first)')
+                continue
             N, M, ratio = map(int, nmr.split('/'))
             ctx.count('compound currency')
             want = Fraction(N) + Fraction(M, ratio)
